@@ -35,10 +35,13 @@ def gen_endpoint_option(vc, name):
     )
 
 
-def gen_subscribe_entry(vc, name, max_ttl=TTL_FOREVER):
+ALL_SHAPES = ("one-endpoint", "none", "two-endpoints", "endpoint+other")
+
+
+def gen_subscribe_entry(vc, name, max_ttl=TTL_FOREVER, shapes=ALL_SHAPES):
     """Subscribe entry with resolved options: zero, one or two endpoint options and
     optionally one other option (BOUNDED number of options)"""
-    shape = vc.choice(name + ".options", ("one-endpoint", "none", "two-endpoints", "endpoint+other"))
+    shape = vc.choice(name + ".options", shapes)
     if shape == "none":
         opts = ()
     elif shape == "one-endpoint":
@@ -61,7 +64,7 @@ def gen_subscribe_entry(vc, name, max_ttl=TTL_FOREVER):
 class AWorld:
     """an announcer with one service instance in an arbitrary state"""
 
-    def __init__(self, vc, name="a", entry=None, stub_queue=True):
+    def __init__(self, vc, name="a", entry=None, stub_queue=True, track=("A_sub",), shapes=("one-endpoint",)):
         self.vc = vc
         self.loop = vc.install_loop(LL.FakeLoop(vc.real(name + ".now", 0)))
         self.prot, self.sent = SS.gen_sd_protocol(vc, name + ".prot")
@@ -69,12 +72,15 @@ class AWorld:
         self.log = []
         self.reject = vc.bool(name + ".listener_rejects")
         self.listener = ServerRecorder(self.log, self.reject)
-        self.entry = entry if entry is not None else gen_subscribe_entry(vc, name + ".entry")
+        self.entry = entry if entry is not None else gen_subscribe_entry(vc, name + ".entry", shapes=shapes)
         self.service = SCFG.gen_service_with_groups(vc, name + ".service", [self.entry.minver_or_counter % 65536])
         self.inst = SD.ServiceInstance(self.service, self.listener, self.ann, self.prot.timings)
         self.running = vc.bool(name + ".running")
         if self.running:
             self.inst._task = LL.Task(self.loop, None)
+            # the offer task of a non-cyclic instance ends on its own; the instance is still
+            # announced (running) until it is stopped
+            self.inst._task.finished = vc.bool(name + ".offer_task_finished")
         self.ann.announcing_services.append(self.inst)
         self.ann.started = True
         self.queued = vc.stub(self.ann, "queue_send") if stub_queue else None
@@ -82,21 +88,43 @@ class AWorld:
         self.B = vc.opaque(name + ".B", "addr")
         vc.assume(self.A != self.B)
         self.sub = SD.EventgroupSubscription.from_subscribe_entry(self.entry)
-        self.slots = {}
-        self.populate(name + ".A_sub", self.A, self.sub, ("absent", "timer", "forever"))
-        self.populate(name + ".B_sub", self.B, self.sub, ("absent", "timer"))
-
-    def populate(self, name, addr, key, kinds):
-        kind = self.vc.choice(name, kinds)
-        if kind == "absent":
-            self.slots[(addr, key)] = None
-            return
-        handle = None
+        # the instance holds arbitrarily many subscriptions (vc.lazy_dict); every existing
+        # record carries the listener's 'unsubscribed' callback and None or a live timer
         ts = self.inst.subscriptions
-        if kind == "timer":
-            handle = self.loop.call_later(self.vc.real(name + ".remaining", 0), ts._expired, addr, key)
-        ts.store[addr][key] = (self.listener.client_unsubscribed, handle)
-        self.slots[(addr, key)] = (kind, handle)
+        ts.store = vc.lazy_dict(name + ".subscriptions", self.gen_inner, self.gen_addr, default=dict)
+        self.other = vc.opaque(name + ".other_subscription", "subscription")  # an arbitrary other record
+        # a parallel subscription of the same sender that differs in the counter only
+        c2 = vc.int(name + ".parallel_counter", 0, 15)
+        vc.assume(c2 != self.sub.counter)
+        self.parallel = SD.EventgroupSubscription(service_id=self.sub.service_id, instance_id=self.sub.instance_id, major_version=self.sub.major_version, id=self.sub.id, counter=c2, ttl=self.sub.ttl, endpoints=self.sub.endpoints)
+        # records the obligation talks about are looked at (materialised) up front
+        self.slots = {}
+        for tag, addr, key in (("A_sub", self.A, self.sub), ("B_sub", self.B, self.sub), ("A_other", self.A, self.other), ("A_parallel", self.A, self.parallel)):
+            if tag in track:
+                self.slots[(addr, key)] = self.state(addr, key)
+
+    def gen_addr(self, vc, name):
+        return vc.opaque(name, "addr")
+
+    def gen_sub_key(self, vc, name):
+        return vc.opaque(name, "subscription")
+
+    def gen_inner(self, vc, name, addr):
+        ts = self.inst.subscriptions
+
+        def gen_record(vc2, name2, key):
+            if vc2.choice(name2 + ".kind", ("timer", "forever")) == "forever":
+                return (self.listener.client_unsubscribed, None)
+            h = self.loop.call_later(vc2.real(name2 + ".remaining", 0), ts._expired, addr, key)
+            return (self.listener.client_unsubscribed, h)
+
+        return vc.lazy_dict(name + ".records", gen_record, self.gen_sub_key)
+
+    def state(self, addr, key):
+        if not self.held(addr, key):
+            return None
+        h = self.inst.subscriptions.store[addr][key][1]
+        return ("forever", None) if h is None else ("timer", h)
 
     def held(self, addr, key):
         ts = self.inst.subscriptions
@@ -169,7 +197,7 @@ def ob_subscription_echo(vc):
 def ob_instance_handle_subscribe(vc):
     """ServiceInstance.handle_subscribe for an arbitrary Subscribe / StopSubscribe entry, any
     instance state, any listener decision, any prior subscription state"""
-    w = AWorld(vc)
+    w = AWorld(vc, track=("A_sub", "B_sub", "A_other", "A_parallel"), shapes=("one-endpoint", "endpoint+other"))
     before = w.snapshot()
     matches = w.service.matches_subscribe(w.entry)
     r = vc.body(SD.ServiceInstance.handle_subscribe)(w.inst, w.entry, w.A)
@@ -201,6 +229,8 @@ def ob_instance_handle_subscribe(vc):
             else:
                 vc.check(h is not None and h.when == w.loop.now + w.entry.ttl and not h.cancelled_, "instance.handle_subscribe.held_until_ttl_after_this_subscribe")
     vc.check_eq(w.held(w.B, w.sub), before[(w.B, w.sub)], "instance.handle_subscribe.other_subscribers_untouched")
+    vc.check_eq(w.held(w.A, w.other), before[(w.A, w.other)], "instance.handle_subscribe.other_records_untouched")
+    vc.check_eq(w.held(w.A, w.parallel), before[(w.A, w.parallel)], "instance.handle_subscribe.parallel_subscription_with_other_counter_untouched")
     w.check_step("instance.handle_subscribe", before)
 
 
@@ -234,42 +264,64 @@ def ob_subscription_expiry(vc):
     w.check_step("subscription_expiry", before)
 
 
+def _mass_release(vc, w, o, label, addr_of_interest):
+    """shared by reboot of a subscriber and stop of the instance: the store is walked by
+    TimedStore.stop_all_for_address / stop_all (loops verified for one arbitrary record):
+    that record is reported 'unsubscribed' exactly once, before the call returns"""
+    vc.check(o.kind != "raise", label + ".never_raises")
+    vc.check_eq(len(w.loop.ready), 0, label + ".defers_nothing")
+    if vc.native:
+        for slot, st in w.slots.items():
+            if st is not None and (addr_of_interest is None or slot[0] == addr_of_interest):
+                vc.check_eq(w.events(slot[1], slot[0]), ["unsubscribed"], label + ".released_record_reported_unsubscribed_once")
+        return
+    if o.kind == "cut" and vc.stashed("saa.entering"):
+        vc.cover("record")
+        key = vc.stashed("saa.element")[0]
+        handle = vc.stashed("saa.element")[2]
+        addr = addr_of_interest if addr_of_interest is not None else vc.stashed("sa.addr")
+        vc.check_eq(w.log, [("unsubscribed", key, addr)], label + ".record_reported_unsubscribed_exactly_once")
+        if handle is not None:
+            vc.check(handle.cancelled_, label + ".record_timer_cancelled")
+        vc.check(not w.held(addr, key), label + ".record_released")
+    else:
+        vc.check_eq(w.log, [], label + ".nothing_reported_beyond_the_records")
+
+
 def ob_subscriber_reboot(vc):
-    w = AWorld(vc)
+    w = AWorld(vc, track=("A_sub", "B_sub", "A_other"))
     before = w.snapshot()
-    w.ann.reboot_detected(w.A)
-    vc.check(not w.held(w.A, w.sub), "announcer.reboot_detected.subscriber_forgotten")
+    o = vc.outcome(vc.body(SD.ServiceAnnouncer.reboot_detected), w.ann, w.A)
+    _mass_release(vc, w, o, "announcer.reboot_detected", w.A)
+    vc.check(not w.held(w.A, w.sub) and not w.held(w.A, w.other), "announcer.reboot_detected.subscriber_forgotten")
     vc.check_eq(w.held(w.B, w.sub), before[(w.B, w.sub)], "announcer.reboot_detected.other_subscribers_kept")
-    w.check_step("announcer.reboot_detected", before)
 
 
 def ob_instance_stop(vc):
-    w = AWorld(vc)
+    w = AWorld(vc, track=("A_sub", "B_sub", "A_other"))
     vc.assume(w.running)
-    before = w.snapshot()
-    vc.body(SD.ServiceInstance.stop)(w.inst)
-    vc.check(not w.held(w.A, w.sub) and not w.held(w.B, w.sub), "instance.stop.releases_every_subscription")
-    w.check_step("instance.stop", before)
+    o = vc.outcome(vc.body(SD.ServiceInstance.stop), w.inst)
+    _mass_release(vc, w, o, "instance.stop", None)
+    if o.kind == "ret":
+        vc.cover("done")
+        vc.check(not w.held(w.A, w.sub) and not w.held(w.B, w.sub) and not w.held(w.A, w.other), "instance.stop.releases_every_subscription")
 
 
-def ob_reboot_then_subscribe_same_message(vc):
-    """a message that reveals a reboot and carries a Subscribe: the reboot is applied first,
-    so the subscription acknowledged by this message stays recorded"""
+def ob_subscribe_after_reboot(vc):
+    """the Subscribe of a message that revealed a reboot is handled after the reboot has
+    been applied (message_received: reboot before entries; reboot handling reports and
+    releases everything before it returns): the sender's records are gone, so the
+    subscription acknowledged by this message is recorded anew and stays recorded"""
     w = AWorld(vc)
     vc.assume(w.running and not w.reject and w.entry.ttl != 0)
     vc.assume(w.service.matches_subscribe(w.entry))
-    w.prot.reboot_detected(w.A)
+    vc.assume(not w.held(w.A, w.sub))  # state after reboot_detected(A)
     sdhdr = H.SOMEIPSDHeader(entries=(w.entry,), flag_unicast=True)
     w.prot.sd_message_received(sdhdr, w.A, False)
     w.loop.run_ready()
     vc.check(w.held(w.A, w.sub), "reboot.subscription_of_the_same_message_is_held")
     vc.check_eq(w.queued, [(w.expected_ack(w.entry.ttl), w.A)], "reboot.subscribe_positively_acknowledged")
-    ev = w.events(w.sub, w.A)
-    if w.slots[(w.A, w.sub)] is not None:
-        vc.cover("held-before")
-        vc.check_eq(ev, ["unsubscribed", "subscribed"], "reboot.old_subscription_released_before_the_new_one")
-    else:
-        vc.check_eq(ev, ["subscribed"], "reboot.new_subscription_reported")
+    vc.check_eq(w.events(w.sub, w.A), ["subscribed"], "reboot.new_subscription_reported_after_the_release")
 
 
 SERVER_SUBSCRIPTION_OBLIGATIONS = [
@@ -279,11 +331,11 @@ SERVER_SUBSCRIPTION_OBLIGATIONS = [
     ob_subscription_expiry,
     ob_subscriber_reboot,
     ob_instance_stop,
-    ob_reboot_then_subscribe_same_message,
+    ob_subscribe_after_reboot,
 ]
 
 BOUNDED = [
-    "server state: one service instance; the subscription of interest (absent / timer / infinite) for the sender plus one for another subscriber",
+    "one service instance per announcer (its subscription store is unbounded)",
     "Subscribe entries carry 0..2 endpoint options and at most one other option",
 ]
 
